@@ -301,6 +301,32 @@ def euclidean_rule(ctx, R):
     r = ret
     while r.kind == 'cast' and r.args:
         r = r.args[0]
+    if r.kind == 'phi':
+        # explicit result 0 for an EMPTY common prefix (sqrt of the empty sum): accepted when the constant alternative
+        # is returned under `min(len, len) == 0` / `is_empty()`, the other alternative is judged
+        from lib import result_assignments, path_conditions
+        rest = [a for a in r.args if not (a.kind == 'const' and a.const_value() in ('0.0', '0', '-0.0'))]
+        zero_ok = True
+        for bb_, kind_, pay_ in result_assignments(b):
+            is_zero = (kind_ == 'const' and str(pay_) in ('0.0', '0', '-0.0')) or (
+                kind_ == 'expr' and pay_.kind == 'const' and pay_.const_value() in ('0.0', '0', '-0.0'))
+            if not is_zero:
+                continue
+            guarded = False
+            for cnd in path_conditions(b, bb_):
+                cm = cnd.cmp() if cnd.kind == 'bool' else None
+                if cm and cm[0] == 'Eq':
+                    for x_, y_ in ((cm[1], cm[2]), (cm[2], cm[1])):
+                        if y_.kind == 'const' and y_.const_value() in ('0', 0) and x_.has_call('len') and (
+                                x_.has_call('min') or x_.has_place(root=('param', 1)) or x_.has_place(root=('param', 2))):
+                            guarded = True
+                if cnd.kind == 'bool' and cnd.truth and cnd.expr.kind == 'call' and cnd.expr.name.rsplit('::', 1)[-1] == 'is_empty':
+                    guarded = True
+            zero_ok = zero_ok and guarded
+        if len(rest) == 1 and zero_ok:
+            r = rest[0]
+            while r.kind == 'cast' and r.args:
+                r = r.args[0]
     ok = r.kind == 'call' and r.name.rsplit('::', 1)[-1] == 'sqrt' and uses_value(r, red)
     ctx.check(ok, R, b, 'euclidean:result=sqrt(sum)', repr(ret)[:100],
               'euclidean returns %r (expected the square root of the accumulated sum)' % ret)
